@@ -72,6 +72,12 @@ func seqRunShapes(prop string, seed int64, idxs []int, scratch, goderive string,
 			sem <- struct{}{}
 			defer func() { <-sem }()
 			r := runCmd(filepath.Join(mod, shapes[i].Name), goEnv(), genWatchdog, goderive, ".")
+			if r.TimedOut {
+				// a busy machine is not a hang: once more, alone, with a longer watchdog
+				retryMu.Lock()
+				r = runCmd(filepath.Join(mod, shapes[i].Name), goEnv(), 4*genWatchdog, goderive, ".")
+				retryMu.Unlock()
+			}
 			if r.Exit != 0 || r.TimedOut {
 				mu.Lock()
 				bad[i] = true
